@@ -7,6 +7,7 @@ import SciVerif.Lemmas.C13l
 import SciVerif.Lemmas.C13m
 import SciVerif.Lemmas.C13n
 import SciVerif.Lemmas.C13o
+import SciVerif.Lemmas.C13p
 
 /-!
 # C13 — DIP node paths follow indentation and values are the literals written
@@ -619,6 +620,41 @@ theorem C13_str_quoted_text (tbl : List UnitRow) (k : Nat) (nm : Str) (a b c : N
 
 example : (∀ ch ∈ "x # y z".toList, ch ≠ '"' ∧ ch ≠ '\\' ∧ ch ≠ '\n' ∧ ch ≠ '$') ∧ ("x # y z".toList == "none".toList) = false :=
   ⟨by decide, by decide⟩
+
+/-! ### whole programs at text level -/
+
+/-- **The property for whole programs, from the text.**  Take ANY list of lines written in the described grammar
+    (`LineD`: group lines, definitions, declarations and modifications with every literal form, any blanks in the
+    gaps, optional unit and comment; `k` leading blanks each; no backslash / newline in the line).  Then
+    (1) the lexer returns, line by line, exactly the described nodes; (2) `parse` on the text is `parse` on those
+    nodes; (3) `parse` on the text and the declarative specification on the abstract lines `(k, name, payload)` the
+    text denotes — parent = nearest earlier name-bearing line with fewer leading blanks, path = ancestors' names +
+    own name, one parameter per distinct path in order of first appearance, type / unit of the first and value of
+    the last occurrence — either both succeed with the same parameters or both fail (`C14_text_refines_spec`
+    applied to the lexed program). -/
+theorem C13_program_text (P : Params) (prog : List (Nat × LineD)) (h : ∀ p ∈ prog, p.2.Ok ∧ NoEsc p.2.render) :
+    let lines := prog.map (fun p => List.replicate p.1 ' ' ++ p.2.render)
+    let nds := prog.map (fun p => ({ p.2.node with indent := p.1 } : Node))
+    lines.mapM determine = .ok nds ∧ parseLines P lines = parseNodes P nds ∧
+    ResEq ((parseLines P lines).map (List.map toS))
+      (specRunG (castInterp P) P.conv P.unitKnown (prog.map (fun p => p.2.aline p.1))) := by
+  intro lines nds
+  have hlex : lines.mapM determine = .ok nds := mapM_determine_program prog h
+  refine ⟨hlex, by simp [parseLines, hlex, bind, Except.bind], ?_⟩
+  have hnt : ∀ nd ∈ nds, nd.kind ≠ .table := by
+    intro nd hnd
+    obtain ⟨p, _, rfl⟩ := List.mem_map.mp hnd
+    exact lineD_not_table p.1 p.2
+  have := C14.C14_text_refines_spec P lines nds hlex hnt
+  have he : nds.map toALine = prog.map (fun p => p.2.aline p.1) := by
+    simp only [nds, List.map_map]
+    exact List.map_congr_left (fun p _ => toALine_lineD p.1 p.2)
+  rw [he] at this
+  exact this
+
+example : (LineD.group "box".toList none).Ok ∧ NoEsc (LineD.group "box".toList none).render ∧
+    (LineD.group "box".toList none).aline 2 = { indent := 2, name := "box".toList, p := .group } :=
+  ⟨⟨⟨'b', "ox".toList, by decide⟩, by decide⟩, by show ∀ c ∈ _, c ≠ '\\' ∧ c ≠ '\n'; decide, rfl⟩
 
 /-- **Escaped quotes.**  A definition whose double-quoted value is written with `\\"` for every quote
     character of the intended text `s` (`s` itself free of backslash, newline and `$`): the lexer marks
